@@ -65,6 +65,7 @@ class Interp:
         self.yields = None
         self.cur_fn = []
         self.class_models = {}
+        self.stop_before = None
         self.stop_after = None      # contract hook: verify a PREFIX of the function (returns the locals at that point)
         ctx.locator = self.locate
 
@@ -168,6 +169,8 @@ class Interp:
     # statements
     def exec_block(self, stmts, env):
         for s in stmts:
+            if self.stop_before is not None and self.depth == 1 and self.stop_before(s):
+                raise PathEnd("return", dict(env.vars), s)
             self.exec_stmt(s, env)
             if self.stop_after is not None and self.depth == 1 and self.stop_after(s):
                 raise PathEnd("return", dict(env.vars), s)
@@ -444,6 +447,8 @@ class Interp:
                 obj[k] = v
                 return
             raise Unsupported("list store with symbolic index")
+        if hasattr(obj, "setitem"):
+            return obj.setitem(self, self.eval(sl, env), v, lineno)
         if isinstance(obj, SArr):
             if isinstance(sl, ast.Slice):
                 lo = None if sl.lower is None else self.eval(sl.lower, env)
@@ -462,7 +467,12 @@ class Interp:
                 fm = idx.snapshot()
                 old = obj.snapshot()
                 if isinstance(v, SArr):
-                    raise Unsupported("mask store with array value")
+                    # a[mask] = values: the written array is `obj`'s own heap cell; content abstracted (enough for frames)
+                    M.use("a[mask] = array (content abstracted)")
+                    h = self.ctx.fresh_fun("mask_written")
+                    old2 = obj.snapshot()
+                    self.store_view(obj.with_(), lambda k, fm=fm, h=h, old2=old2: Ite(B(fm(k)), h(I(k)), old2(k)), lineno)
+                    return
                 self.store_view(obj.with_(), lambda k, fm=fm, old=old: Ite(B(fm(k)), self.elem_const(v), old(k)), lineno)
                 return
             if isinstance(idx, SArr):
@@ -774,6 +784,13 @@ class Interp:
                 r = Or(*[M.scalar_cmp("Eq", a, x) for x in b])
                 return r if op == "In" else Not(r)
             raise Unsupported("membership test")
+        if isinstance(a, SRagged) and op in ("Eq", "NotEq", "Lt", "LtE", "Gt", "GtE") and not isinstance(b, SRagged):
+            bb = ord(b) if isinstance(b, str) and len(b) == 1 else b
+            d0 = a.data_at
+            from .pybuiltins import SRaggedObj
+            r = SRaggedObj(lambda p: M.scalar_cmp(op, d0(p), bb), a.n, a.starts, a.lens, None, a.total, a.contiguous, getattr(a, "C", None))
+            r.kind = "bool"
+            return r
         if op in ("Is", "IsNot") and (a is None or b is None or is_arr_like(a) or is_arr_like(b)):
             r = a is b
             return r if op == "Is" else not r
